@@ -274,7 +274,6 @@ Record simr (ss : sstate) (s : mstate) : Prop := mkSimr {
   simr_globals : m_globals s = s_globals ss;
   simr_vars : vars_of (m_frames s) = s_locals ss;
   simr_world : m_world s = s_world ss;
-  simr_unnamed : m_unnamed s = [];
   simr_disc : rf_get (m_regs s) R_DISC_FORWARD = Some (VBool false)
 }.
 Lemma sim_simr ss s : sim ss s -> simr ss s.
